@@ -93,6 +93,44 @@ DIVERGE = {"panic_fmt", "panic", "unwrap_failed", "expect_failed", "panic_displa
            "panic_cold_explicit", "slice_index_fail"}
 
 
+# storage items are identified by their on-chain namespace (which cannot change without a migration), under the name the
+# declaring constant has on the pinned tree; a renamed constant keeps its canonical name, an unknown namespace falls back to
+# the constant's own name
+NS2NAME = {"config": "CONFIG", "position_id_counter": "POSITION_ID_COUNTER", "positions": "POSITIONS",
+           "last_claimed_epoch": "LAST_CLAIMED_EPOCH", "lp_weight_history": "LP_WEIGHT_HISTORY", "farm_counter": "FARM_COUNTER",
+           "farms": "FARMS", "single_side_liquidity_provision_buffer": "SINGLE_SIDE_LIQUIDITY_PROVISION_BUFFER", "pools": "POOLS",
+           "pool_count": "POOL_COUNTER"}
+_NS_CACHE = {}
+
+
+def namespace_of_const(F, full):
+    k = (id(F), full)
+    if k in _NS_CACHE:
+        return _NS_CACHE[k]
+    ns = None
+    b = F.get(full)
+    if b is not None:
+        for blk in b.blocks:
+            t = blk["term"]
+            if t.get("k") == "call" and re.search(r"cw_storage_plus::\w+::(<.*>::)?new$", t.get("callee", "")) and \
+                    re.search(r"::(Item|Map|IndexedMap|SnapshotMap|SnapshotItem|IndexedSnapshotMap)\b", t.get("callee", "")):
+                lits = [a["text"].strip().strip('"') for a in t["args"] if a.get("k") == "const" and a.get("text", "").strip().startswith('"')]
+                if lits:
+                    ns = lits[0]
+                    break
+    _NS_CACHE[k] = ns
+    return ns
+
+
+def canonical_item(F, full):
+    ns = namespace_of_const(F, full)
+    outer = F.get(full.rsplit("::", 1)[0]) if "::" in full else None
+    local_to_fn = outer is not None and outer.kind == "fn"      # e.g. the old-layout item declared inside a migration function
+    if ns is not None and ns in NS2NAME and not local_to_fn:
+        return NS2NAME[ns]
+    return full.rsplit("::", 1)[-1]
+
+
 def item_of(I, st, v):
     """Storage item name from the receiver value (Ref to a local holding Const(<def>))."""
     v = I.deref_full(st, v)
@@ -104,9 +142,9 @@ def item_of(I, st, v):
                 names.add(m.group(1))
     if len(names) == 1:
         full = names.pop()
-        return full.rsplit("::", 1)[-1], full
+        return canonical_item(I.F, full), full
     if names:
-        return "|".join(sorted(n.rsplit("::", 1)[-1] for n in names)), "|".join(sorted(names))
+        return "|".join(sorted(canonical_item(I.F, n) for n in names)), "|".join(sorted(names))
     return "?", "?"
 
 
